@@ -13,6 +13,9 @@ namespace Orders.Tr
 def forEnum {α σ : Type} (l : List α) (s : σ) (f : Nat → α → σ → σ) : σ :=
   (l.zipIdx).foldl (fun s p => f p.2 p.1 s) s
 
+/-- `it.enumerate()` in value position: pairs `(index, element)` -/
+def enumerate {α : Type} (l : List α) : List (Nat × α) := (List.range l.length).zip l
+
 /-- `while c { body }` with fuel (the state is returned unchanged when the fuel runs out) -/
 def whileFuel {σ : Type} : Nat → (σ → Bool) → (σ → σ) → σ → σ
   | 0, _, _, s => s
